@@ -4,7 +4,7 @@ usage: keep_seed.py <worktree> <n> <property id> <confirm-json> <checks-run> <de
 import sys, os, json, shutil
 w, n, pid, confirm, ran, detected, by = sys.argv[1:8]
 src = os.path.join(w, "seed_out", n)
-dst = os.path.join(os.path.dirname(os.path.dirname(os.path.abspath(__file__))), "seeded", "%s_%s" % (pid, n))
+dst = os.path.join(os.path.dirname(os.path.dirname(os.path.abspath(__file__))), "seeded", os.environ.get("KEEP_AS") or "%s_%s" % (pid, n))
 shutil.rmtree(dst, ignore_errors=True)
 os.makedirs(dst)
 for f in os.listdir(src):
